@@ -64,7 +64,8 @@ def run_occ(ctx, prog, cfg, rule):
     O = occ.Occ(prog)
     nsites = 0
     reported = set()
-    for f in sorted(occ_scope(prog), key=lambda x: x.short):
+    guard_fns = [f for f in prog.fns.values() if f.has_mir and occ.is_guard_fn(f)]
+    for f in sorted(occ_scope(prog) + guard_fns, key=lambda x: x.short):
         outs, viol = O.transfer(f.short, occ.BAL)
         for v in viol:
             via = " -> ".join("%s (%s)" % x for x in v.get("via", []))
@@ -81,6 +82,10 @@ def run_occ(ctx, prog, cfg, rule):
                         "user code can run (%s) while the buffer is in state `%s` (%s): if it panics, the buffer %s"
                         % (v["desc"], v["state"], STATE_TEXT[v["state"]], CONSEQ[v["state"]]),
                         cfg, detail=("reached from %s via %s" % (f.short, via)) if via else ("entry: %s" % f.short))
+        if f in guard_fns:
+            # a guard function returns with its slots initialised and its guard forgotten: the
+            # commit is the caller's (it sees an A event); only user code inside matters here
+            continue
         bad_out = [s for s in outs if s != occ.BAL]
         if f.rec.get("sig", {}).get("output", "").find("CircularBuffer") >= 0 and False:
             pass
